@@ -9,7 +9,7 @@ import (
 	"pgregory.net/rapid"
 )
 
-var c08Alphabet = []byte{' ', '\t', '[', ']', '(', ')', '|', '.', '-', '=', '<', '>', 'a', 'b', 'X', 'Y', '1', '_', 0xc3}
+var c08Alphabet = enumAlphabet
 
 type c08Naming struct {
 	name string
